@@ -1203,6 +1203,13 @@ impl<'a> Gen<'a> {
                 }
             }
         }
+        if alts.is_empty() {
+            // every generated alternative was a (skipped) early catch-all
+            let mut env2 = env.clone();
+            let x = self.name("o");
+            env2.push((x.clone(), st.clone()));
+            alts.push((Pat::Var(x), self.expr(t, &env2, d)));
+        }
         self.stable_rec = saved;
         Expr::Match(b(s), alts)
     }
